@@ -71,12 +71,24 @@ func init() {
 			p := seqProfile{minSteps: 4, maxSteps: 24, wTxn: 20, wCreateIndex: 1,
 				wInsert: 8, wAt: 8, wRange: 2, wDelete: 4, wDeleteAll: 1, wKey: 10,
 				pAbort: 0.35, pFailInsert: 0.2, pMerge: 0.3, maxCols: 6, multiBlock: 0.4, pKeyCol: 0.3, indexes: true}
-			if run%2 == 1 {
-				return genConc("C02", seed, run, concProfile{minWriters: 1, maxWriters: 3, minReaders: 1, maxReaders: 2, maxTxns: 3, maxOps: 4,
-					wUpdate: 6, wMerge: 3, wInsert: 4, wDeleteOwn: 3, wRangeRead: 3, wRangeWrite: 1, wPointRead: 4, wKey: 8,
-					pAbort: 0.3, pFailInsert: 0.15, multiBlock: 0.4, maxCols: 4, pKeyCol: 0.25, indexes: true, stableRows: [2]int{2, 6}}, knownAvoid("C02", seed, run))
+			streamFault := func(cs *Case) *Case {
+				// fault: the writer of the change stream returns an error from some commit on (or
+				// once): the transaction is applied in full all the same (own PRNG stream)
+				if fr := NewRng(seed, uint64(run), 101); fr.Chance(0.2) {
+					if cs.Cfg.Params == nil {
+						cs.Cfg.Params = map[string]int{}
+					}
+					cs.Cfg.Params["stream_fail_at"] = fr.Range(1, 8)
+					cs.Cfg.Params["stream_fail_once"] = b2i(fr.Chance(0.4))
+				}
+				return cs
 			}
-			return genSeq("C02", seed, run, p, knownAvoid("C02", seed, run))
+			if run%2 == 1 {
+				return streamFault(genConc("C02", seed, run, concProfile{minWriters: 1, maxWriters: 3, minReaders: 1, maxReaders: 2, maxTxns: 3, maxOps: 4,
+					wUpdate: 6, wMerge: 3, wInsert: 4, wDeleteOwn: 3, wRangeRead: 3, wRangeWrite: 1, wPointRead: 4, wKey: 8,
+					pAbort: 0.3, pFailInsert: 0.15, multiBlock: 0.4, maxCols: 4, pKeyCol: 0.25, indexes: true, stableRows: [2]int{2, 6}}, knownAvoid("C02", seed, run)))
+			}
+			return streamFault(genSeq("C02", seed, run, p, knownAvoid("C02", seed, run)))
 		},
 		Exec: func(cs *Case) *World {
 			if cs.World == "conc" {
@@ -276,6 +288,17 @@ func init() {
 				}
 			}
 			cs.Cfg.Params["tier_thorough"] = b2i(tier == "thorough")
+			if lf := NewRng(seed, uint64(run), 100); lf.Chance(0.25) {
+				// fault: the destination of the primary's commit log fails a write while the history
+				// runs (once, or from then on; a whole write call or in the middle of one): what the
+				// log holds afterwards is itself what a failure while writing left behind
+				if lf.Chance(0.5) {
+					cs.Cfg.Params["log_fault_call"] = lf.Range(1, 14)
+				} else {
+					cs.Cfg.Params["log_fault_byte"] = lf.Range(1, 1500)
+				}
+				cs.Cfg.Params["log_fault_once"] = b2i(lf.Chance(0.6))
+			}
 			return cs
 		},
 		Exec: func(cs *Case) *World {
